@@ -89,7 +89,9 @@ func TestVerifC18EngineSignature(t *testing.T) {
 	}
 	st := verifkit.New("engine-signature")
 	defer st.Flush()
-	opt := verifc18.CSGenOpt{ExcludeEmptyEncrypted: verifkit.KnownFindings("C18")[verifc18.KnownEmptyPayload]}
+	known := verifkit.KnownFindings("C18")
+	opt := verifc18.CSGenOpt{ExcludeEmptyEncrypted: known[verifc18.KnownEmptyPayload],
+		ExcludeUnknownLenEncrypted: known[verifc18.KnownUnknownLength]}
 	rapid.Check(t, func(t *rapid.T) {
 		st.Eval()
 		verifc18.RunCSCase(t, st, env, opt, engineSignature)
